@@ -24,6 +24,11 @@ def lib_sources():
 def _obj(sp, flags):
     inc = build._inc() + ['-I' + STANDIN]
     o = os.path.join(build.CACHE, 'fobj_%s_%s.o' % (os.path.basename(sp).replace('.cpp', ''), build._key([sp], flags)))
+    if os.path.exists(o):
+        try:
+            os.utime(o, None)          # in use: keep it away from the cache clean-up
+        except OSError:
+            pass
     if not os.path.exists(o):
         tmp = o + '.%d.tmp' % os.getpid()
         r = subprocess.run([build.CXX] + flags + build.DEFS + inc + ['-c', sp, '-o', tmp], capture_output=True, text=True)
